@@ -405,7 +405,87 @@ func c17Reattach(r *Run) {
 			})
 		}
 	}
+	// a peer attaches itself under a name for which a (slow) outgoing dial is still in progress; the dial
+	// then fails: the report of the failed dial concerns the dial's own connection object, not the
+	// connection that was attached meanwhile.
+	scs = append(scs, c17Scenario{
+		name: "reattach.before.dialerr", ic: pxIcept{Kind: "none"},
+		setup: func(w *pxWorld) {
+			w.attach("a", false)
+			w.slow["s9"] = make(chan error, 1)
+		},
+		body: func(s *c17Run) {
+			w := s.w
+			dialIdx := -1
+			s.do(func() bool { s.id++; ok := w.fwd(s.id, "a", "s9"); dialIdx = len(w.objs) - 1; return ok })
+			s.do(func() bool {
+				return w.waitCond(func() bool {
+					for _, c := range w.dialCalls {
+						if c == "s9" {
+							return true
+						}
+					}
+					return false
+				})
+			})
+			s.do(func() bool {
+				// what was queued for the dial's object goes down with it
+				w.lost["s9"] += w.infl["s9"]
+				delete(w.mon.want, "s9")
+				w.infl["s9"] = 0
+				w.attach("s9", true)
+				return true
+			})
+			s.trip("a", "s9")
+			s.do(func() bool { return w.dialFailedAt(dialIdx, "s9") })
+			s.trip("a", "s9")
+			s.trip("s9", "a")
+		},
+	})
 	c17RunAll(r, scs)
+}
+
+// dialFailedAt lets the held dial of heap object idx fail (D item) and applies the property's demand:
+// the connection attached under the same name meanwhile stays.
+func (w *pxWorld) dialFailedAt(idx int, name string) bool {
+	mark := len(hooks.Events())
+	w.r.Progress(w.scen, map[string]any{"pxseq": w.input(), "next": fmt.Sprintf("D%d:err", idx)})
+	w.items = append(w.items, fmt.Sprintf("D%d:err", idx))
+	w.slow[name] <- errPxUnknown
+	var ev Event
+	if !hooks.WaitFor(func(e Event) bool {
+		if e.Seq >= mark && (e.Site == "proxy.remove" || e.Site == "proxy.remove.stale") && e.Detail == name {
+			ev = e
+			return true
+		}
+		return false
+	}, hangTimeout) {
+		w.outs = append(w.outs, "nothing")
+		w.fail("dialerr", "a failed dial was never reported to the forwarding loop", name)
+		return false
+	}
+	removed := ev.Site == "proxy.remove"
+	if !removed {
+		// on a tree that always deletes, the stale event is followed by a remove event: wait for the
+		// disconnect callback (called after the table has been updated) and look again
+		w.waitCond(func() bool { return w.disc[name] > w.discSeen[name] })
+		for _, e := range hooks.Events()[mark:] {
+			if e.Site == "proxy.remove" && e.Detail == name {
+				removed = true
+			}
+		}
+	}
+	w.mu.Lock()
+	w.discSeen[name] = w.disc[name]
+	w.mu.Unlock()
+	if removed {
+		w.outs = append(w.outs, "removed:"+hxs(name))
+		w.dead = true
+		w.r.Violate(w.scen+".reattach", "schedule", "the failure of an outgoing dial removed the connection that had meanwhile been attached under the same name", w.input(), w.output(), "stale:"+hxs(name))
+		return false
+	}
+	w.outs = append(w.outs, "stale:"+hxs(name))
+	return true
 }
 
 // ---------------------------------------------------------------- spoof
